@@ -531,6 +531,8 @@ func init() {
 					}
 					// MaxExecs: the largest schedule tree on the unchanged code has under 10^4 executions; a tree 50x that size is
 					// a runaway (e.g. a busy-wait loop under unbounded preemption) and is reported as not exhaustive
+					// nobody waits by polling either: a writer polling for readers to finish, or a reader polling for a writer
+					sc.SpinClass = "waits-by-polling"
 					mc.Explore(&cc, r, "product", sc, mc.ExploreOpts{Bound: bound, MaxExecs: maxExecs})
 				}
 				mc.CountNontrivial(r)
